@@ -539,7 +539,20 @@ class Gen:
                 n_ops += 1
         # close the history with observations of everything still alive
         for s in sorted(self.w.live(), key=lambda s: s.id)[-4:]:
-            if s.u is not None or s.kind == "trunc":
+            if s.kind == "trunc":
+                o = s.obj.measure
+                mu = ref.A(o.nu)[:, 0] / ref.A(o.Lambda)[:, 0, 0]
+                sd = 1.0 / np.sqrt(ref.A(o.Lambda)[:, 0, 0])
+                key = r.choice(["1", "x", "x**2", "x**k"])
+                rec = {"op": "obs", "a": s.id, "name": "trunc_integrate", "key": key}
+                if key == "x**k":
+                    rec["k"] = r.integers(0, 5)
+                self.emit(rec)
+                self.emit({"op": "obs", "a": s.id, "name": "trunc_call", "x": np.mean(mu) + np.max(sd) * r.normal((3, 1), 1.5), "ew": False})
+                continue
+            if s.kind == "cond":
+                self.emit({"op": "obs", "a": s.id, "name": "get_conditional_mu", "x": r.normal((2, int(s.obj.Dx)), 1.5)})
+            if s.u is not None:
                 continue  # the NN-controlled object itself is not a batch of R_u components
             rec = {"op": "obs", "a": s.id, "name": "attrs"}
             self.emit(rec)
@@ -547,6 +560,9 @@ class Gen:
                 self.emit({"op": "obs", "a": s.id, "name": "evaluate_ln", "x": r.normal((3, s.D), 1.5), "ew": False})
             if s.kind in ("measure", "pdf"):
                 self.emit({"op": "obs", "a": s.id, "name": "log_integral"})
+                key = r.choice(INTEGRATE_KEYS)
+                self.emit({"op": "obs", "a": s.id, "name": "integrate", "key": key,
+                           "kw": self.coefs(key, s.D, s.R, per_component=r.coin(0.3))})
         return self.records
 
 
